@@ -132,7 +132,9 @@ CLAIMS = {
             "filter table of JordanCurve.intersection (40 cells) and A & B, the [0,1]^2 range of every returned "
             "pair (exact line solver over 25 cells + Newton clamp), index and parameter roles (also for segments of "
             "different degree in both orders), sortedness, and that "
-            "the line-line solver uses no tolerance, and that no crossing is discarded on a stale cached box.",
+            "the line-line solver uses no tolerance, that no crossing is discarded on a stale cached box, that the "
+            "merge tolerances are not finer than the parameter grid, and that a crossing at a common end point of two "
+            "curved segments comes out with the exact parameters 0 / 1 (the exact end-point pairs win the merge).",
             "NOT decided: completeness of the Newton search for curved pieces, parity of crossings. Only a small named "
             "fraction of the statement.",
             "DESIGN.md section 2, C14"),
@@ -195,9 +197,13 @@ CLAIMS = {
             "wrap of the subtended angle, the basis identities for degrees 0..6, and (numeric abstract run with mutable "
             "sample points) that the winding number of a curved segment about an off-origin point is the sum of the "
             "angles its chords subtend, that split at several nodes yields the restrictions of the curve to the "
-            "node intervals, and that nothing behind `point in segment` quantises a parameter coarser than 1e-9.",
-            "NOT decided: the Bernstein / Horner algebra, derivative matrices (pynurbs), split re-parametrisation, "
-            "projection accuracy -- arithmetic identities outside this family. Only a small named fraction.",
+            "node intervals, that nothing behind `point in segment` quantises a parameter coarser than 1e-9, that "
+            "Newton-type loops on exact parameters round their iterates, that eval is the Bernstein combination "
+            "(degrees 1, 2, 3, 5 against de Casteljau) and (abstract runs of the projection on exact polynomial "
+            "stand-in curves) that a point of a curved segment projects onto its parameter and a point of the "
+            "prolongation of the segment onto parameters inside [0, 1].",
+            "NOT decided: derivative matrices (pynurbs), convergence of the projection for arbitrary curves -- "
+            "numerical facts outside this family. Only a small named fraction.",
             "DESIGN.md section 2, C18"),
     "C19": ("abstract interpretation of the subshape setters over all input permutations and of DisjointShape.__new__ "
             "over all list shapes; quantifier rules; truth tables",
